@@ -22,7 +22,8 @@ Fresh(run) == [
   okProbe   |-> {},             \* peers that answered the admission probe, having advertised the protocol and passing the filter when it was sent
   speaks    |-> {},             \* peers currently advertising the protocol
   probeSpk  |-> {},             \* peers whose in-flight probe was sent while they advertised the protocol
-  pings     |-> {},             \* members with a liveness ping (probe sent while a member) in flight
+  nPing     |-> [p \in 0..run.N |-> 0],   \* liveness pings in flight per peer (probe sent while the peer was in the table)
+  nAdm      |-> [p \in 0..run.N |-> 0],   \* admission probes in flight per peer (probe sent while it was not)
   mustGo    |-> {},
   cutShort  |-> {},             \* members whose dial / request was cut by a context since the last quiescent point
   failedNow |-> {},             \* peers with a failure delivered since the last quiescent point
@@ -54,14 +55,20 @@ Ext ==
        !.refreshOpen = IF k = "refresh" THEN @ \cup {Ev.id} ELSE @,
        !.closed = @ \/ k = "close"])
 
+IsMemberAtSend == IF "member" \in DOMAIN Ev THEN Ev.member ELSE Ev.p \in s.member
+Dec(f, p) == [f EXCEPT ![p] = IF @ > 0 THEN @ - 1 ELSE 0]
 Sent ==
   /\ Is("Sent")
   /\ Step([s EXCEPT
        !.probeSpk = IF Ev.kind = "req" /\ Ev.cls = "probe"
                     THEN (IF Ev.speaks /\ FilterOK(Ev.p) THEN @ \cup {Ev.p} ELSE @ \ {Ev.p}) ELSE @,
-       \* admission probes are only sent to non-members, so a probe to a member is a refresh ping
-       !.pings = IF Ev.kind = "req" /\ Ev.cls = "probe"
-                 THEN (IF Ev.p \in s.member THEN @ \cup {Ev.p} ELSE @ \ {Ev.p}) ELSE @])
+       \* A probe to a peer that is in the table when the request leaves is a liveness ping, otherwise an admission
+       \* probe (the driver reads the table at that instant; membership at the last quiescent point can be stale).
+       \* Several probes to one peer can be in flight; answers and timeouts do not say which probe they belong to,
+       \* so they are attributed in the way that obliges the node least: a failure to an admission probe if one is
+       \* in flight, a success to a ping if one is in flight.
+       !.nPing = IF Ev.kind = "req" /\ Ev.cls = "probe" /\ IsMemberAtSend THEN [@ EXCEPT ![Ev.p] = @ + 1] ELSE @,
+       !.nAdm = IF Ev.kind = "req" /\ Ev.cls = "probe" /\ ~IsMemberAtSend THEN [@ EXCEPT ![Ev.p] = @ + 1] ELSE @])
 
 \* a probe answer naming nobody is a failure once the table holds K peers
 ProbeOK(ev) == ev.out = "ok" /\ (ev.named > 0 \/ Cardinality(s.member) < c.K)
@@ -75,11 +82,15 @@ Deliver ==
          okP == isProbe /\ ProbeOK(Ev) /\ p \in s.probeSpk
          \* failures that oblige the node to evict a member
          lkFail == isLk /\ Ev.out # "ok" /\ s.lkLive /\ Ev.cls # "refresh"
-         pingFail == isProbe /\ ~ProbeOK(Ev) /\ p \in s.member /\ p \in s.pings
+         probeFail == isProbe /\ ~ProbeOK(Ev)
+         pingFail == probeFail /\ p \in s.member /\ s.nAdm[p] = 0 /\ s.nPing[p] > 0
      IN Step([s EXCEPT
           !.failedNow = IF Ev.out # "ok" \/ (isProbe /\ ~ProbeOK(Ev)) THEN @ \cup {p} ELSE @,
           !.okLookup = IF okQ THEN @ \cup {p} ELSE @,
           !.okProbe = IF okP THEN @ \cup {p} ELSE @,
+          !.nAdm = IF isProbe /\ (probeFail \/ s.nPing[p] = 0) THEN Dec(@, p) ELSE @,
+          !.nPing = IF isProbe /\ ~(probeFail \/ s.nPing[p] = 0) THEN Dec(@, p)
+                    ELSE IF isProbe /\ probeFail /\ s.nAdm[p] = 0 THEN Dec(@, p) ELSE @,
           !.mustGo = IF (lkFail \/ pingFail) /\ p \in s.member /\ ~s.closed THEN @ \cup {p} ELSE @])
 
 LTerm == Is("LTerm") /\ Step([s EXCEPT !.lkLive = FALSE])
@@ -90,11 +101,17 @@ LookupEnd == Is("LookupEnd") /\ Step([s EXCEPT !.lkLive = FALSE])
 Abort ==
   /\ Is("Abort")
   /\ IF Ev.why = "deadline"
-     THEN Step([s EXCEPT
+     THEN LET isProbe == Ev.kind = "req" /\ Ev.cls = "probe"
+              pingFail == isProbe /\ Ev.p \in s.member /\ s.nAdm[Ev.p] = 0 /\ s.nPing[Ev.p] > 0 IN
+          Step([s EXCEPT
             !.failedNow = @ \cup {Ev.p},
-            !.mustGo = IF Ev.kind = "req" /\ Ev.cls = "probe" /\ Ev.p \in s.member /\ Ev.p \in s.pings /\ ~s.closed
-                       THEN @ \cup {Ev.p} ELSE @])
-     ELSE Step([s EXCEPT !.cutShort = IF Ev.p \in s.member THEN @ \cup {Ev.p} ELSE @])
+            !.nAdm = IF isProbe THEN Dec(@, Ev.p) ELSE @,
+            !.nPing = IF isProbe /\ s.nAdm[Ev.p] = 0 THEN Dec(@, Ev.p) ELSE @,
+            !.mustGo = IF pingFail /\ ~s.closed THEN @ \cup {Ev.p} ELSE @])
+     ELSE LET isProbe == Ev.kind = "req" /\ Ev.cls = "probe" IN
+          Step([s EXCEPT !.cutShort = IF Ev.p \in s.member THEN @ \cup {Ev.p} ELSE @,
+                         !.nAdm = IF isProbe THEN Dec(@, Ev.p) ELSE @,
+                         !.nPing = IF isProbe /\ s.nAdm[Ev.p] = 0 THEN Dec(@, Ev.p) ELSE @])
 
 RefreshAns ==
   /\ Is("RefreshAns")
